@@ -73,7 +73,6 @@ spec fn first_real_token(ts: Seq<Token>) -> Option<Token>
 impl<'a> SourceParser<'a> {
 //@extract crates/samlang-parser/src/source_parser.rs :: impl<'a> SourceParser<'a> / fn peek
 //@ret r
-//@attr #[verifier::exec_allows_no_decreases_clause]
 //@contract
     ensures
       final(self).last_location == old(self).last_location,  // :looking_ahead_does_not_move_the_end_of_the_last_token
@@ -88,6 +87,8 @@ impl<'a> SourceParser<'a> {
         self.peeked is None, old(self).peeked is None,
         self.last_location == old(self).last_location,  // :skipping_a_comment_keeps_the_end_of_the_last_token
         first_real_token(self.token_producer.rest()) == first_real_token(old(self).token_producer.rest()),
+      // termination: every comment skipped is one token fewer still to come (the stream handed over by the lexer is finite)
+      decreases self.token_producer.rest().len(),
 //@end
 
 //@extract crates/samlang-parser/src/source_parser.rs :: impl<'a> SourceParser<'a> / fn consume
